@@ -346,7 +346,7 @@ func applyLive(n names, o *op) error {
 		}
 		return xdsConverter.ConvertUpdateEndpoints(as)
 	case "AddOrUpdateListener":
-		return liveAddOrUpdateListener(n.l(o.L), o)
+		return liveAddOrUpdateListener(n, o)
 	case "DeleteListener":
 		return liveDeleteListener(n.l(o.L))
 	}
@@ -603,7 +603,7 @@ func genOp(rt *rapid.T, m *model, n names, step int, prev *op, st *caseStats) *o
 		o.L = rapid.IntRange(0, 2).Draw(rt, "listener")
 		o.Listener = &mListener{
 			Addr:      fmt.Sprintf("127.0.0.1:%d", 30000+o.L),
-			RouterRef: n.r(rapid.IntRange(0, 2).Draw(rt, "routerRef")),
+			RouterRef: fmt.Sprintf("r%d", rapid.IntRange(0, 2).Draw(rt, "routerRef")), // relative to the case prefix
 			Inspector: rapid.Bool().Draw(rt, "inspector"),
 			IdleSec:   rapid.SampledFrom([]int{0, 30, 90}).Draw(rt, "idle"),
 			StreamTag: rapid.SampledFrom([]string{"", fmt.Sprintf("t%d", step)}).Draw(rt, "streamTag"),
@@ -620,6 +620,11 @@ func genOp(rt *rapid.T, m *model, n names, step int, prev *op, st *caseStats) *o
 			if lExists(o.L) {
 				o.Note = "address-differs"
 				o.Listener.Addr = "127.0.0.1:39999"
+				if cur := m.listeners[n.l(o.L)]; cur.StreamTag != o.Listener.StreamTag && ev.IsKnown(partModel, sigLnRejected) {
+					// known finding: a rejected update still installs its stream filters; excluded by construction
+					o.Listener.StreamTag = cur.StreamTag
+					st.excluded = append(st.excluded, "excluded:rejected-listener-update-with-other-stream-filters")
+				}
 			}
 		}
 	case "DeleteListener":
@@ -904,10 +909,10 @@ func (r *run) step(o *op, final bool) {
 		ev.Fail(r.tb, r.part, "panic-in-update:"+o.label(), "history %s :: %s panicked: %v\n%s", histJSON(r.ops), o.label(), pn, stack)
 	}
 	if err != nil {
-		o.Err = err.Error()
+		o.Err = strings.ReplaceAll(err.Error(), n.pfx, "") // messages must not depend on the per-case prefix: rapid only shrinks reproducible failures
 	}
 	if e.applied && !e.partial && err != nil {
-		ev.Fail(r.tb, r.part, "valid-update-rejected:"+o.label(), "history %s :: the last operation is valid but MOSN returned %v", histJSON(r.ops), err)
+		ev.Fail(r.tb, r.part, "valid-update-rejected:"+o.label(), "history %s :: the last operation is valid but MOSN returned %v", histJSON(r.ops), o.Err)
 	}
 	if o.Kind == "DeleteListener" && e.removed {
 		st.deletedListeners[n.l(o.L)] = true
@@ -999,7 +1004,7 @@ func cleanup(n names) {
 // checkState is the oracle run after every step.
 func checkState(tb ev.TB, part string, m *model, n names, ops []*op, last *op, st *caseStats, deep map[string]bool) {
 	fail := func(sig, format string, a ...interface{}) {
-		ev.Fail(tb, part, sig, "history %s :: after %s: %s", histJSON(ops), last.label(), fmt.Sprintf(format, a...))
+		ev.Fail(tb, part, sig, "history %s :: after %s: %s", histJSON(ops), last.label(), strings.ReplaceAll(fmt.Sprintf(format, a...), n.pfx, ""))
 	}
 	var d *dumped
 	var derr error
